@@ -29,7 +29,8 @@ class Ctx:
         self.b = builder(prog, self.fn, inline=False)
         self.pcs = path_conditions(prog, self.fn, self.b)
         self.cfg = cfg_of(self.fn)
-        self.raises = [(st, exception_name(st, self.b), self.pcs.of(st)) for st in self.cfg.all_stmts() if isinstance(st, ast.Raise)]
+        self.raises = [(st, exception_name(st, self.b), self.pcs.of(st)) for st in self.cfg.all_stmts() if isinstance(st, ast.Raise)
+                       and not any(l in (("const", False), ("const", 0), ("const", None)) for l in self.pcs.of(st))]
 
     def top(self, st):
         """Outermost non-loop compound statement enclosing st inside its innermost loop (the guard's header)."""
